@@ -61,7 +61,8 @@ type PkgConfig struct {
 	Ffi string
 }
 
-func getFfi(pkg *packages.Package) string {
+// ffisUsed returns the FFIs that pkg uses, directly or through its imports.
+func ffisUsed(pkg *packages.Package) map[string]struct{} {
 	seenFfis := make(map[string]struct{})
 	packages.Visit([]*packages.Package{pkg},
 		func(pkg *packages.Package) bool {
@@ -78,8 +79,13 @@ func getFfi(pkg *packages.Package) string {
 			}
 		},
 	)
+	return seenFfis
+}
 
+func getFfi(pkg *packages.Package) string {
+	seenFfis := ffisUsed(pkg)
 	if len(seenFfis) > 1 {
+		// translatePackage reports this as an error before getting here
 		panic(fmt.Sprintf("multiple ffis used %v", seenFfis))
 	}
 	for ffi := range seenFfis {
